@@ -163,6 +163,14 @@ pub fn non_numbers(thorough: bool) -> Vec<OwnedTerm> {
     out.push(OwnedTerm::Reference(ExternalReference::new(Atom::new("n@h"), 1, vec![1, 2, 4])));
     out.push(OwnedTerm::Reference(ExternalReference::new(Atom::new("n@h"), 1, vec![1, 2])));
     out.push(OwnedTerm::Reference(ExternalReference::with_local_ext_bytes(Atom::new("n@h"), 1, vec![1, 2, 3], vec![7u8, 7])));
+    // pids that differ in the creation only, one of them with creation 0 (triples expose a wildcard)
+    for cr in [0u32, 1, 2] { out.push(OwnedTerm::Pid(pid("w@h", 7, 7, cr))); out.push(OwnedTerm::Port(ExternalPort::new(Atom::new("w@h"), 7, cr))); out.push(OwnedTerm::Reference(ExternalReference::new(Atom::new("w@h"), cr, vec![7, 7]))); }
+    // funs that differ in one field of their creator pid only
+    for (n, id, serial, cr) in [("n@h", 1u32, 2u32, 3u32), ("n@h", 1, 3, 3), ("n@h", 2, 2, 3), ("n@h", 1, 2, 4), ("m@h", 1, 2, 3)] {
+        out.push(OwnedTerm::InternalFun(Box::new(erltf::types::InternalFun::new(1, [5u8; 16], 1, 0, Atom::new("m"), 2, 3, pid(n, id, serial, cr), vec![]))));
+    }
+    // lists of bytes that are not UTF-8 text (Latin-1 "cafè" / "café"), next to their neighbours
+    for l in [vec![200i64], vec![201], vec![99, 97, 102, 232], vec![99, 97, 102, 233], vec![255, 254], vec![255, 255], vec![128], vec![127]] { out.push(OwnedTerm::List(l.into_iter().map(int).collect())); }
     out.push(OwnedTerm::ExternalFun(ExternalFun::new(Atom::new("m"), Atom::new("f"), 1)));
     out.push(OwnedTerm::ExternalFun(ExternalFun::new(Atom::new("m"), Atom::new("f"), 2)));
     out.push(OwnedTerm::ExternalFun(ExternalFun::new(Atom::new("m"), Atom::new("g"), 1)));
